@@ -343,6 +343,10 @@ def _mk_calcbeta():
                 env.claim_eq("sinBeta^2=(ex_hat.Bp_hat)^2@" + loc, (g("sinBeta") * p["d"]) ** 2, (p["delta"][0] * p["su"] - p["delta"][1] * p["cu"]) ** 2)
                 env.claim_eq("tanBeta=sin/cos@" + loc, g("tanBeta") * g("cosBeta"), g("sinBeta"))
                 env.claim_eq("cos^2+sin^2=1@" + loc, g("cosBeta") ** 2 + g("sinBeta") ** 2, 1)
+            # every metric component is written at centre, xlow and ylow (BoutMesh.writeArray): beta has to exist at the x-faces too, otherwise the
+            # location array there is created on first access, filled with zeros, and zeros are what the file gets
+            for n in ("cosBeta", "sinBeta", "tanBeta"):
+                env.claim("beta_defined_at_the_x_faces(the_metric_is_written_there):" + n, getattr(r, n)._xlow_array is not None)
     return body
 
 
